@@ -1655,3 +1655,79 @@ Proof.
     [ cbn [hd_error]; f_equal; apply pos_eq_true; assumption | apply pos_eq_true; assumption
     | assumption | apply NoDup_nodup_pos; assumption ].
 Qed.
+
+(* ============================================================================================== *)
+(* L. the inherited queries on BinaryNode trees                                                      *)
+
+Definition optP (P : btree -> Prop) (o : option btree) : Prop :=
+  match o with Some x => P x | None => True end.
+
+Section BtInd.
+  Variable P : btree -> Prop.
+  Hypothesis H : forall g l r, optP P l -> optP P r -> P (BT g l r).
+  Fixpoint btree_ind' (b : btree) : P b :=
+    match b with
+    | BT g l r =>
+        H g l r
+          (match l return optP P l with Some x => btree_ind' x | None => I end)
+          (match r return optP P r with Some x => btree_ind' x | None => I end)
+    end.
+End BtInd.
+
+(* the repaired recursion on a binary tree is the recursion on its image without the empty slots *)
+Lemma bt_recursive_diameter_img : forall b d,
+  bt_recursive_diameter b d = recursive_diameter (bt_to_rose b) d.
+Proof.
+  induction b as [g l r IHl IHr] using btree_ind'. intro d.
+  destruct l as [lb|]; destruct r as [rb|]; cbn [optP] in IHl, IHr.
+  - cbn [bt_recursive_diameter binary_is_leaf filter is_some length Nat.eqb bt_to_rose app].
+    rewrite recursive_diameter_unfold, rd_go_cons. rewrite IHl.
+    destruct (recursive_diameter (bt_to_rose lb) d) as [x d1]. rewrite rd_go_cons, IHr.
+    destruct (recursive_diameter (bt_to_rose rb) d1) as [y d2]. reflexivity.
+  - cbn [bt_recursive_diameter binary_is_leaf filter is_some length Nat.eqb bt_to_rose app].
+    rewrite recursive_diameter_unfold, rd_go_cons. rewrite IHl.
+    destruct (recursive_diameter (bt_to_rose lb) d) as [x d1]. reflexivity.
+  - cbn [bt_recursive_diameter binary_is_leaf filter is_some length Nat.eqb bt_to_rose app].
+    rewrite recursive_diameter_unfold, rd_go_cons. rewrite IHr.
+    destruct (recursive_diameter (bt_to_rose rb) d) as [y d2]. reflexivity.
+  - reflexivity.
+Qed.
+
+Lemma bt_is_leaf_img : forall b, bt_is_leaf b = sub_is_leaf (bt_to_rose b).
+Proof. intros [g [lb|] [rb|]]; reflexivity. Qed.
+
+Lemma bt_diameter_img : forall b, bt_diameter b = sub_diameter (bt_to_rose b).
+Proof. intro b. unfold bt_diameter, sub_diameter. rewrite bt_is_leaf_img, bt_recursive_diameter_img. reflexivity. Qed.
+
+(* BinaryNode.diameter = the largest distance between two nodes of the image tree *)
+Lemma clause_binary_diameter : forall b,
+  bt_diameter b = spec_diameter (bt_to_rose b) []
+  /\ (forall p q, In p (positions (bt_to_rose b)) -> In q (positions (bt_to_rose b)) -> dist p q <= bt_diameter b)
+  /\ (exists p q, In p (positions (bt_to_rose b)) /\ In q (positions (bt_to_rose b)) /\ dist p q = bt_diameter b).
+Proof.
+  intro b. rewrite bt_diameter_img, sub_diameter_eq. split; [|split].
+  - rewrite (spec_diameter_eq (bt_to_rose b) [] (bt_to_rose b) eq_refl). unfold node_diameter. cbn [subtree_at].
+    symmetry. apply sub_diameter_eq.
+  - intros p q. apply diam_upper.
+  - apply diam_attained.
+Qed.
+
+(* BinaryNode.siblings = the other entries of the parent's pair of slots *)
+Lemma slot_is_oid : forall g c, slot_is g c = opt_eqb Nat.eqb (option_map bt_tag c) (Some g).
+Proof. intros g [b|]; reflexivity. Qed.
+
+Lemma oid_list_refl : forall l : list (option nat), list_eqb (opt_eqb Nat.eqb) l l = true.
+Proof.
+  induction l as [|[x|] l IH]; [reflexivity | |]; cbn [list_eqb opt_eqb]; [rewrite Nat.eqb_refl|]; exact IH.
+Qed.
+
+Lemma clause_binary_siblings : forall root g,
+  prop_C12_binary_siblings (option_map (fun parent => map (option_map bt_tag) (bt_children parent)) (bt_parent_of root g))
+                           g (bt_siblings root g) = true.
+Proof.
+  intros root g. unfold prop_C12_binary_siblings, bt_siblings. destruct (bt_parent_of root g) as [parent|]; [|reflexivity].
+  cbn [option_map]. rewrite filter_map_comm.
+  rewrite (filter_ext (fun x => negb (opt_eqb Nat.eqb (option_map bt_tag x) (Some g))) (fun c => negb (slot_is g c)))
+    by (intro c; rewrite slot_is_oid; reflexivity).
+  apply oid_list_refl.
+Qed.
